@@ -313,7 +313,62 @@ _R4["GlueHmacNew"] = ["-ns", "TinkVerif.Gen.GlueHmacNew", "-pkg", "internal/mac/
     "-consts", "minKeySizeInBytes,minTagSizeInBytes", "-abs", "func() hash.Hash=HashFn",
     "-opaque", "New:subtle.GetHashFunc=getHashFunc", "-opaque", "ValidateHMACParams:subtle.GetHashDigestSize=digestSize"]
 
-_R4_OWNERS = {"GlueJwt": ["C05", "C09"], "GlueIdReq": ["C11", "C20"], "GlueStreamNew": ["C07"], "GlueHkdfPrf": ["C15"], "GlueHmacNew": ["C01", "C04"]}
+_R4["GluePss"] = ["-ns", "TinkVerif.Gen.GluePss", "-pkg", "internal/signature", "-sub", "Pss", "-funcs", "New_RSA_SSA_PSS_Signer,New_RSA_SSA_PSS_Verifier",
+    "-abs", "crypto/rsa.PrivateKey=Priv", "-abs", "crypto/rsa.PublicKey=Pub", "-abs", "func() hash.Hash=HashFn",
+    "-opaque", "New_RSA_SSA_PSS_Signer:validRSAPublicKey=validPub", "-opaque", "New_RSA_SSA_PSS_Verifier:validRSAPublicKey=validPub",
+    "-opaque", "New_RSA_SSA_PSS_Signer:rsaHashFunc=hashFunc", "-opaque", "New_RSA_SSA_PSS_Verifier:rsaHashFunc=hashFunc"]
+_R4["GlueKmsEnv"] = ["-ns", "TinkVerif.Gen.GlueKmsEnv", "-pkg", "aead", "-sub", "KmsEnvelope", "-recv", "KMSEnvelopeAEAD", "-funcs", "parseEnvelope,Decrypt,Encrypt",
+    "-consts", "lenDEK,maxLengthEncryptedDEK", "-abs", _M + "tink.AEAD=Kek", "-record", "tink_go_proto.KeyTemplate=TypeUrl",
+    "-opaque", "Decrypt:(tink.AEAD).Decrypt=kekDecrypt", "-opaque", "Decrypt:decryptDataWithDEK=decryptWithDEK",
+    "-opaque", "Encrypt:(tink.AEAD).Encrypt=kekEncrypt", "-opaque", "Encrypt:newDEK=newDEK", "-opaque", "Encrypt:encryptDataAndSerializeEnvelope=encryptAndSerialize"]
+_R4["GlueEcies"] = ["-ns", "TinkVerif.Gen.GlueEcies", "-pkg", "hybrid/subtle", "-sub", "EciesNew", "-funcs", "NewECIESAEADHKDFHybridEncrypt,NewECIESAEADHKDFHybridDecrypt",
+    "-abs", "crypto/elliptic.Curve=Curve", "-abs", "crypto/elliptic.CurveParams=CParams", "-abs", _M + "hybrid/subtle.ECPoint=Point",
+    "-abs", _M + "hybrid/subtle.EciesAEADHKDFDEMHelper=Dem", "-abs", _M + "hybrid/subtle.ECPrivateKey=PrivK",
+    "-opaque", "NewECIESAEADHKDFHybridEncrypt:GetCurve=getCurve", "-opaque", "NewECIESAEADHKDFHybridEncrypt:(crypto/elliptic.Curve).Params=params"]
+_R4["GlueDeriveKeyset"] = ["-ns", "TinkVerif.Gen.GlueDeriveKeyset", "-pkg", "keyderivation", "-sub", "KeysetDeriver", "-recv", "wrappedKeysetDeriver", "-funcs", "DeriveKeyset",
+    "-abs", _M + "keyderivation.fullKeyDeriverWithKeyID=Deriver", "-abs", _M + "keyset.Manager=Mgr", "-abs", _M + "keyset.Handle=Handle",
+    "-abs", _M + "key.Key=Key", "-abs", _M + "keyset.KeyOpts=KOpt",
+    "-opaque", "DeriveKeyset:keyset.NewManager=newManager", "-opaque", "DeriveKeyset:(*keyderivation.fullKeyDeriverWithKeyID).DeriveKey=deriveKey",
+    "-opaque", "DeriveKeyset:keyset.WithFixedID=withFixedID", "-opaque", "DeriveKeyset:(*keyset.Manager).Handle=handle",
+    "-step", "DeriveKeyset:(*keyset.Manager).AddKeyWithOpts=addKey", "-step", "DeriveKeyset:(*keyset.Manager).SetPrimary=setPrimary"]
+_R4["GlueManagerAdd"] = ["-ns", "TinkVerif.Gen.GlueManagerAdd", "-pkg", "keyset", "-sub", "ManagerGo", "-recv", "Manager",
+    "-stateful", "newRandomKeyID,Add", "-extern", "newRandomKeyID:random.GetRandomUint32=draw@tape:value", "-extern", "Add:random.GetRandomUint32=draw@tape:value",
+    "-funcs", "newRandomKeyID,Add", "-record", "keyset.entry=fixedID,isPrimary,status", "-record", "tink_go_proto.KeyTemplate=OutputPrefixType",
+    "-consts", "tinkpb.OutputPrefixType_RAW,tinkpb.OutputPrefixType_UNKNOWN_PREFIX,Enabled",
+    "-abs", _M + "key.Key=Key", "-abs", _M + "key.Parameters=Params", "-abs", _M + "internal/protoserialization.KeySerialization=KSer",
+    "-abs", _M + "proto/tink_go_proto.KeyData=KData",
+    "-opaque", "Add:internal/protoserialization.ParseParameters=parseParams", "-opaque", "Add:internal/keygenregistry.CreateKey=createKey",
+    "-opaque", "Add:core/registry.NewKeyData=newKeyData", "-opaque", "Add:internal/protoserialization.NewKeySerialization=newKeySer",
+    "-opaque", "Add:internal/protoserialization.ParseKey=parseKey"]
+_R4["GlueJwtKid"] = ["-ns", "TinkVerif.Gen.GlueJwtKid", "-pkg", "jwt", "-sub", "JwtKid", "-funcs", "newFullVerifier,newFullSigner",
+    "-abs", _M + "tink.Verifier=Ver", "-abs", _M + "tink.Signer=Sgn", "-abs", _M + "jwt.verifierWithKID=VKid", "-abs", _M + "jwt.signerWithKID=SKid",
+    "-opaque", "newFullVerifier:newVerifierWithKID=newVerifierWithKID", "-opaque", "newFullSigner:newSignerWithKID=newSignerWithKID"]
+_R4["GluePrefixmap"] = ["-ns", "TinkVerif.Gen.GluePrefixmap",
+    "-pkg", "internal/prefixmap", "-sub", "Iter", "-recv", "Iterator", "-stateful", "Next", "-funcs", "Next",
+    "-pkg", "internal/prefixmap", "-sub", "PMap", "-recv", "PrefixMap", "-stateful", "Insert", "-funcs", "PrimitivesMatchingPrefix,Insert",
+    "-consts", "cryptofmt.NonRawPrefixSize,EmptyPrefix"]
+_R4["GlueHmacMac"] = ["-ns", "TinkVerif.Gen.GlueHmacMac", "-pkg", "internal/mac/hmac", "-sub", "HmacMac", "-recv", "HMAC", "-funcs", "ComputeMAC,VerifyMAC",
+    "-abs", "func() hash.Hash=HashFn", "-abs", "hash.Hash=Mac",
+    "-opaque", "ComputeMAC:crypto/hmac.New=hmacNew", "-step", "ComputeMAC:(hash.Hash).Write=macWrite", "-opaque", "ComputeMAC:(hash.Hash).Sum=macSum",
+    "-opaque", "VerifyMAC:crypto/hmac.Equal=ctEqual"]
+_R4["GluePrfSet"] = ["-ns", "TinkVerif.Gen.GluePrfSet", "-pkg", "prf", "-sub", "PrfSet", "-funcs", "NewPRFSetWithConfig",
+    "-abs", _M + "keyset.Handle=Handle", "-abs", _M + "keyset.Config=Config", "-abs", _M + "keyset.Entry=Entry", "-abs", _M + "key.Key=Key",
+    "-abs", _M + "prf.PRF=Prf", "-abs", _M + "monitoring.Logger=Logger", "-abs", _M + "prf.monitoredPRF=MPrf", "-abs", "map[uint32]" + _M + "prf.PRF=PrfMap",
+    "-opaque", "NewPRFSetWithConfig:(*keyset.Handle).Len=handleLen", "-opaque", "NewPRFSetWithConfig:createLogger=createLogger",
+    "-opaque", "NewPRFSetWithConfig:internal/factoryutil.EnabledUnmonitoredEntries=entries",
+    "-opaque", "NewPRFSetWithConfig:factoryutil.PrimitiveFromKey[PRF]=primitiveFromKey", "-opaque", "NewPRFSetWithConfig:(*keyset.Entry).Key=entryKey",
+    "-opaque", "NewPRFSetWithConfig:(*keyset.Entry).IsPrimary=isPrimary", "-opaque", "NewPRFSetWithConfig:(*keyset.Entry).KeyID=keyID"]
+_R4["GlueKeyDerivers"] = ["-ns", "TinkVerif.Gen.GlueKeyDerivers", "-pkg", "keyderivation/internal/keyderivers", "-sub", "KeyDerivers",
+    "-closure", "hmacPRFDeriver=addHMACPRFKeyDeriver", "-closure", "hkdfPRFDeriver=addHKDFPRFKeyDeriver", "-funcs", "hmacPRFDeriver,hkdfPRFDeriver",
+    "-abs", _M + "key.Parameters=Params", "-abs", _M + "key.Key=Key", "-abs", "io.Reader=Rd", "-abs", _M + "secretdata.Bytes=SBytes",
+    "-abs", _M + "prf/hmacprf.Parameters=HParams", "-abs", _M + "prf/hmacprf.Key=HKey",
+    "-abs", _M + "prf/hkdfprf.Parameters=KParams", "-abs", _M + "prf/hkdfprf.Key=KKey",
+    "-read", "hmacPRFDeriver:io.ReadFull=readFull", "-opaque", "hmacPRFDeriver:(*prf/hmacprf.Parameters).KeySizeInBytes=keySize",
+    "-opaque", "hmacPRFDeriver:prf/hmacprf.NewKey=newKey", "-opaque", "hmacPRFDeriver:secretdata.NewBytesFromData=secretBytes",
+    "-read", "hkdfPRFDeriver:io.ReadFull=readFull", "-opaque", "hkdfPRFDeriver:(*prf/hkdfprf.Parameters).KeySizeInBytes=keySize",
+    "-opaque", "hkdfPRFDeriver:prf/hkdfprf.NewKey=newKey", "-opaque", "hkdfPRFDeriver:secretdata.NewBytesFromData=secretBytes"]
+_R4_OWNERS = {"GlueKeyDerivers": ["C17"], "GluePrfSet": ["C15"], "GluePrefixmap": ["C02", "C05"], "GlueHmacMac": ["C01", "C04"], "GluePss": ["C03"], "GlueKmsEnv": ["C02"], "GlueEcies": ["C06"], "GlueDeriveKeyset": ["C17"], "GlueManagerAdd": ["C11", "C20"],
+              "GlueJwtKid": ["C05", "C09"], "GlueJwt": ["C05", "C09"], "GlueIdReq": ["C11", "C20"], "GlueStreamNew": ["C07"], "GlueHkdfPrf": ["C15"], "GlueHmacNew": ["C01", "C04"]}
 GEN.update({n: {"owner": _R4_OWNERS[n], "tool": "gluetr", "args": a} for n, a in _R4.items()})
 
 
@@ -379,14 +434,23 @@ def regenerate(prop, repo, verif, build, build_harness=None):
         bins[tool] = binp
     env = dict(os.environ, GOFLAGS="-mod=mod", GOPROXY="off")
     os.makedirs(os.path.join(verif, "lean", "TinkVerif", "Gen"), exist_ok=True)
+    def _run(n):
+        g = GEN[n]
+        tmp = os.path.join(build, n + ".lean.new")
+        if os.path.exists(tmp):
+            os.remove(tmp)
+        return subprocess.run([bins[g.get("tool", "translator")]] + g["args"] + ["-out", tmp], cwd=repo, env=env, stdout=subprocess.PIPE,
+                              stderr=subprocess.STDOUT, text=True, timeout=600)
+    # the translator runs are independent (each type-checks its packages and writes its own file): run them four at a time,
+    # then look at the results in the fixed order of GEN
+    from concurrent.futures import ThreadPoolExecutor
+    with ThreadPoolExecutor(max_workers=4) as _ex:
+        _procs = dict(zip(todo, _ex.map(_run, todo)))
     for n in todo:
         g = GEN[n]
         out = os.path.join(verif, "lean", "TinkVerif", "Gen", n + ".lean")
         tmp = os.path.join(build, n + ".lean.new")
-        if os.path.exists(tmp):
-            os.remove(tmp)
-        p = subprocess.run([bins[g.get("tool", "translator")]] + g["args"] + ["-out", tmp], cwd=repo, env=env, stdout=subprocess.PIPE,
-                           stderr=subprocess.STDOUT, text=True, timeout=600)
+        p = _procs[n]
         res["obligations"] += 1
         if p.returncode != 0 or not os.path.exists(tmp):
             res["problems"].append("translator refused %s: %s" % (n, p.stdout[-600:]))
